@@ -28,13 +28,14 @@ type Sig struct {
 }
 
 type TRule struct {
-	Kind    string `json:"kind"` // BEGIN END BEGINFILE ENDFILE PATTERN
-	Tag     string `json:"tag"`
-	Pat     *Pat   `json:"pat,omitempty"`
-	NoBody  bool   `json:"nobody,omitempty"`
-	Reroot  string `json:"reroot,omitempty"`  // BEGINFILE: `$ = <selector>` first
-	SetFlag bool   `json:"setflag,omitempty"` // BEGINFILE: isarr = $ is array
-	Sig     *Sig   `json:"sig,omitempty"`
+	Kind      string `json:"kind"` // BEGIN END BEGINFILE ENDFILE PATTERN
+	Tag       string `json:"tag"`
+	Pat       *Pat   `json:"pat,omitempty"`
+	NoBody    bool   `json:"nobody,omitempty"`
+	Reroot    string `json:"reroot,omitempty"`    // BEGINFILE: `$ = <selector>` first
+	SetFlag   bool   `json:"setflag,omitempty"`   // BEGINFILE: isarr = $ is array
+	SetDollar bool   `json:"setdollar,omitempty"` // BEGIN/END: the rule assigns $ after its print (the next rule must still see null)
+	Sig       *Sig   `json:"sig,omitempty"`
 }
 
 type TProg struct {
@@ -74,6 +75,19 @@ func (s *Sig) render(tag string) string {
 		stmt = "while (true) { " + s.What + " }"
 	case "match":
 		stmt = "match (1) { 1 => { " + s.What + " } }"
+	case "forpost":
+		// the signal is raised while the third clause of a C-style for is evaluated
+		if s.What == "next" {
+			stmt = "for (sp = 0; sp < 2; sigN()) { sp++ }"
+		} else {
+			stmt = "for (sp = 0; sp < 2; sigX()) { sp++ }"
+		}
+	case "whilecond":
+		if s.What == "next" {
+			stmt = "while (sigN()) { }"
+		} else {
+			stmt = "while (sigX()) { }"
+		}
 	case "func2":
 		// two frames deep, from inside a loop in the callee
 		if s.What == "next" {
@@ -149,6 +163,9 @@ func (p *TProg) Render() string {
 		}
 		if r.Sig != nil && r.Sig.Pos == "after" {
 			stmts = append(stmts, r.Sig.render(r.Tag))
+		}
+		if r.SetDollar && (r.Kind == "BEGIN" || r.Kind == "END") {
+			stmts = append(stmts, fmt.Sprintf("$ = %q", "set-by-"+r.Tag))
 		}
 		stmts = append(stmts, fmt.Sprintf("print %q", r.Tag+"z"))
 		for i, s := range stmts {
